@@ -197,6 +197,10 @@ func NewParametersFromLiteral(paramDef ParametersLiteral) (params Parameters, er
 	// In case a log prime field is set for either Q or P, the corresponding primes need to be generated.
 	// Note that GenModuli returns nil for Q if logQ == nil, and nil for P if logP == nil.
 	if paramDef.LogQ != nil || paramDef.LogP != nil {
+		// the ring degree sizes the root order handed to GenModuli: check it before generating
+		if err = checkSizeParams(paramDef.LogN); err != nil {
+			return Parameters{}, err
+		}
 		switch paramDef.RingType {
 		case ring.Standard:
 			LogNthRoot := utils.Max(paramDef.LogN+1, paramDef.LogNthRoot)
@@ -815,8 +819,8 @@ func checkModuliLogSize(logQ, logP []int) error {
 // GenModuli generates a valid moduli chain from the provided moduli sizes.
 func GenModuli(LogNthRoot int, logQ, logP []int) (q, p []uint64, err error) {
 
-	if err = checkSizeParams(logN); err != nil {
-		return
+	if LogNthRoot < MinLogN+1 || LogNthRoot > MaxLogN+2 {
+		return nil, nil, fmt.Errorf("LogNthRoot=%d is not in [%d, %d]", LogNthRoot, MinLogN+1, MaxLogN+2)
 	}
 
 	if err = checkModuliLogSize(logQ, logP); err != nil {
